@@ -6,6 +6,9 @@ From NIC Require Import Base.SMap AppProtect.Model AppProtect.Spec AppProtect.Pr
 Import ListNotations.
 Open Scope string_scope.
 Open Scope list_scope.
+
+Section V.
+Context {fx : bool}.
 Open Scope Z_scope.
 
 Lemma existsb_map {A B} (f : B -> bool) (g : A -> B) (l : list A) :
@@ -46,9 +49,9 @@ Qed.
 
 (* one in-force signature meets a requirement in the model iff it does in the specification *)
 Lemma sig_meets_model S t (r : reqobj) k o :
-  is_req_satisfied_by_user_sig {| sr_tag := t; sr_rev := Some (tf_opt (rq_min r), tf_opt (rq_max r)) |}
+  is_req_satisfied_by_user_sig fx {| sr_tag := t; sr_rev := Some (tf_opt (rq_min r), tf_opt (rq_max r)) |}
                                (spec_sig_ex S k o) && s_valid (spec_sig_ex S k o) =
-  sig_meets acceptable_as_coded S t r (k, o).
+  sig_meets (acceptable_for fx) S t r (k, o).
 Proof.
   unfold sig_meets. cbn [fst snd].
   destruct (sig_competes o) eqn:C.
@@ -56,12 +59,16 @@ Proof.
     + rewrite andb_true_r. unfold is_req_satisfied_by_user_sig, wf_ex. cbn [s_tag s_rev sr_tag sr_rev].
       pose proof (competes_tag _ C) as Ht. apply String.eqb_neq in Ht. rewrite Ht. cbn [orb].
       destruct (String.eqb (so_tag o) t) eqn:Et; cbn [negb andb]; [|reflexivity].
-      destruct (tf_opt (so_rev o)) as [rv|]; [|reflexivity].
-      unfold acceptable_as_coded, acceptable.
-      destruct (tf_opt (rq_min r)) as [a|]; destruct (tf_opt (rq_max r)) as [b|]; cbn.
+      destruct (tf_opt (so_rev o)) as [rv|]; [|destruct fx; reflexivity].
+      unfold acceptable_for, acceptable_as_coded, acceptable.
+      destruct (tf_opt (rq_min r)) as [a|]; destruct (tf_opt (rq_max r)) as [b|]; destruct fx; cbn.
+      * apply andb_comm.
       * apply andb_comm.
       * rewrite andb_true_r. destruct (a <? rv); reflexivity.
+      * rewrite andb_true_r. destruct (a <? rv); reflexivity.
       * destruct (rv <? b); reflexivity.
+      * destruct (rv <? b); reflexivity.
+      * reflexivity.
       * reflexivity.
     + apply andb_false_r.
   - rewrite andb_false_r. cbn [andb].
@@ -74,9 +81,9 @@ Proof.
 Qed.
 
 Lemma req_sat_model S t (r : reqobj) :
-  is_req_satisfied_by_user_sigs {| sr_tag := t; sr_rev := Some (tf_opt (rq_min r), tf_opt (rq_max r)) |}
+  is_req_satisfied_by_user_sigs fx {| sr_tag := t; sr_rev := Some (tf_opt (rq_min r), tf_opt (rq_max r)) |}
                                 (mapk (spec_sig_ex S) S) =
-  existsb (sig_meets acceptable_as_coded S t r) S.
+  existsb (sig_meets (acceptable_for fx) S t r) S.
 Proof.
   unfold is_req_satisfied_by_user_sigs, mapk. rewrite existsb_map.
   apply existsb_ext_in. intros [k o] _. cbn [fst snd]. apply sig_meets_model.
@@ -90,15 +97,15 @@ Lemma build_reqs_spec S (l : list reqobj) :
   | None => forallb req_times_ok l = false
   | Some reqs =>
       forallb req_times_ok l = true /\
-      forallb (fun rq => is_req_satisfied_by_user_sigs rq (mapk (spec_sig_ex S) S)) reqs =
-      forallb (req_satisfied acceptable_as_coded S) l
+      forallb (fun rq => is_req_satisfied_by_user_sigs fx rq (mapk (spec_sig_ex S) S)) reqs =
+      forallb (req_satisfied (acceptable_for fx) S) l
   end.
 Proof.
   induction l as [|r l IH]; cbn [build_reqs forallb]; [split; reflexivity|].
   destruct (rq_tag r) as [t|] eqn:T.
   - assert (Hok : req_times_ok r = negb (tf_bad (rq_min r)) && negb (tf_bad (rq_max r)))
       by (unfold req_times_ok; rewrite T; reflexivity).
-    assert (Hsat : req_satisfied acceptable_as_coded S r = existsb (sig_meets acceptable_as_coded S t r) S)
+    assert (Hsat : req_satisfied (acceptable_for fx) S r = existsb (sig_meets (acceptable_for fx) S t r) S)
       by (unfold req_satisfied; rewrite T; reflexivity).
     rewrite Hok, Hsat. clear Hok Hsat. pose proof (req_sat_model S t r) as Q. unfold build_rev_times.
     destruct (rq_min r) eqn:Emin; cbn [tf_bad negb andb]; try reflexivity;
@@ -107,12 +114,12 @@ Proof.
         cbn [forallb]; rewrite IH2; f_equal; exact Q
        |exact IH]).
   - assert (Hok : req_times_ok r = true) by (unfold req_times_ok; rewrite T; reflexivity).
-    assert (Hsat : req_satisfied acceptable_as_coded S r = true) by (unfold req_satisfied; rewrite T; reflexivity).
+    assert (Hsat : req_satisfied (acceptable_for fx) S r = true) by (unfold req_satisfied; rewrite T; reflexivity).
     rewrite Hok, Hsat. cbn [andb]. exact IH.
 Qed.
 
 Lemma pol_answer_spec ob k :
-  get_app_resource (spec_waf ob) KPolicy k = spec_pol_answer acceptable_as_coded ob k.
+  get_app_resource (spec_waf fx ob) KPolicy k = spec_pol_answer (acceptable_for fx) ob k.
 Proof.
   rewrite spec_waf_eq. unfold get_app_resource, spec_pol_answer. cbn [policies]. rewrite lookup_mapk.
   destruct (lookup k (ob_pol ob)) as [o|]; [|reflexivity]. cbn [option_map].
@@ -122,15 +129,15 @@ Proof.
   pose proof (build_reqs_spec (ob_sig ob) l) as B.
   destruct (build_reqs l) as [reqs|].
   - destruct B as [B1 B2]. rewrite B1. cbn [fst p_valid].
-    assert (V : verify_policy_against_user_sigs (mapk (spec_sig_ex (ob_sig ob)) (ob_sig ob))
+    assert (V : verify_policy_against_user_sigs fx (mapk (spec_sig_ex (ob_sig ob)) (ob_sig ob))
                   {| p_obj := o; p_reqs := reqs; p_valid := true; p_err := ENone |} =
-                forallb (req_satisfied acceptable_as_coded (ob_sig ob)) l)
+                forallb (req_satisfied (acceptable_for fx) (ob_sig ob)) l)
       by (unfold verify_policy_against_user_sigs; cbn [p_reqs]; exact B2).
-    rewrite V. destruct (forallb (req_satisfied acceptable_as_coded (ob_sig ob)) l); reflexivity.
+    rewrite V. destruct (forallb (req_satisfied (acceptable_for fx) (ob_sig ob)) l); reflexivity.
   - rewrite B. reflexivity.
 Qed.
 
-Lemma log_answer_spec ob k : get_app_resource (spec_waf ob) KLogConf k = spec_log_answer ob k.
+Lemma log_answer_spec ob k : get_app_resource (spec_waf fx ob) KLogConf k = spec_log_answer ob k.
 Proof.
   rewrite spec_waf_eq. unfold get_app_resource, spec_log_answer. cbn [logconfs]. rewrite lookup_mapk.
   destruct (lookup k (ob_log ob)) as [o|]; [|reflexivity]. cbn [option_map].
@@ -138,11 +145,11 @@ Proof.
 Qed.
 
 Lemma usersig_answer_spec ob k :
-  get_app_resource (spec_waf ob) KUserSig k = spec_sig_answer (ob_sig ob) k.
+  get_app_resource (spec_waf fx ob) KUserSig k = spec_sig_answer (ob_sig ob) k.
 Proof. rewrite <- sig_answer_spec. reflexivity. Qed.
 
 Theorem waf_answer_spec ob kd k :
-  get_app_resource (spec_waf ob) kd k = spec_answer acceptable_as_coded ob kd k.
+  get_app_resource (spec_waf fx ob) kd k = spec_answer (acceptable_for fx) ob kd k.
 Proof.
   destruct kd; cbn [spec_answer];
     [apply pol_answer_spec|apply log_answer_spec|apply usersig_answer_spec|reflexivity..].
@@ -191,10 +198,10 @@ Theorem dos_answer_spec en ob ns nm :
 Proof. apply dos_by_key_spec. Qed.
 
 Theorem answers_spec_state en ob wkeys pkeys :
-  model_answers (spec_state en ob) wkeys pkeys = spec_answers acceptable_as_coded en ob wkeys pkeys.
+  model_answers (spec_state fx en ob) wkeys pkeys = spec_answers (acceptable_for fx) en ob wkeys pkeys.
 Proof.
   unfold model_answers, spec_answers.
-  change (waf (spec_state en ob)) with (spec_waf ob). change (dos (spec_state en ob)) with (spec_dos en ob).
+  change (waf (spec_state fx en ob)) with (spec_waf fx ob). change (dos (spec_state fx en ob)) with (spec_dos en ob).
   f_equal; [|f_equal; [|f_equal]]; apply map_ext; intros x.
   - rewrite waf_answer_spec. reflexivity.
   - rewrite waf_answer_spec. reflexivity.
@@ -213,25 +220,28 @@ Definition f21_free (ob : objects) : Prop :=
     In (ks, so) (ob_sig ob) -> so_tag so = t -> tf_opt (so_rev so) = None.
 
 Lemma acceptable_coded_natural mn mx rv :
-  (mn = None -> mx = None -> rv = None) -> acceptable_as_coded mn mx rv = acceptable mn mx rv.
+  fx = true \/ (mn = None -> mx = None -> rv = None) -> (acceptable_for fx) mn mx rv = acceptable mn mx rv.
 Proof.
-  intros H. unfold acceptable_as_coded. destruct rv as [r|]; [|reflexivity].
+  intros [->|H]; [reflexivity|]. unfold acceptable_for. destruct fx; [reflexivity|].
+  unfold acceptable_as_coded. destruct rv as [r|]; [|reflexivity].
   destruct mn; destruct mx; try reflexivity. discriminate (H eq_refl eq_refl).
 Qed.
 
-Theorem natural_answer ob kd k : f21_free ob ->
-  spec_answer acceptable_as_coded ob kd k = spec_answer acceptable ob kd k.
+(* with fixes/F21.diff applied the natural reading holds for every object set; without it, for
+   the object sets that contain no (unbounded requirement, dated signature) pair *)
+Theorem natural_answer ob kd k : fx = true \/ f21_free ob ->
+  spec_answer (acceptable_for fx) ob kd k = spec_answer acceptable ob kd k.
 Proof.
   intros F. destruct kd; cbn [spec_answer]; try reflexivity.
   unfold spec_pol_answer. destruct (lookup k (ob_pol ob)) as [po|] eqn:L; [|reflexivity].
   destruct (pol_class po); try reflexivity.
   destruct (po_reqs po) as [l|] eqn:R; [|reflexivity].
-  rewrite (forallb_ext_in (req_satisfied acceptable_as_coded (ob_sig ob)) (req_satisfied acceptable (ob_sig ob))); [reflexivity|].
+  rewrite (forallb_ext_in (req_satisfied (acceptable_for fx) (ob_sig ob)) (req_satisfied acceptable (ob_sig ob))); [reflexivity|].
   intros r Hr. unfold req_satisfied. destruct (rq_tag r) as [t|] eqn:T; [|reflexivity].
   apply existsb_ext_in. intros [ks so] Hs. unfold sig_meets. cbn [fst snd].
   destruct (String.eqb (so_tag so) t) eqn:Et; [|rewrite !andb_false_r; reflexivity].
   apply String.eqb_eq in Et. f_equal. apply acceptable_coded_natural.
-  intros H1 H2. eapply F; eauto.
+  destruct F as [F|F]; [left; exact F|right]. intros H1 H2. eapply F; eauto.
 Qed.
 
 (* ------------------------------------------------------------------------------------------ *)
@@ -278,3 +288,5 @@ Proof.
   exists (fst w), ow. repeat split; auto.
   eapply winner_in_force; eauto.
 Qed.
+
+End V.
